@@ -786,7 +786,7 @@ def _reshape(a, shape):
     fl = []           # (old_axis, position in that axis's factor list, factor)
     for ai, d in enumerate(a.dims):
         for k, f in enumerate(factors(d)):
-            fl.append((ai, k, f))
+            fl.append((ai, (k,), f))
     nreq = len(shape)
     neg = [i for i, s in enumerate(shape) if concrete_int(s) == -1]
     if len(neg) > 1:
@@ -811,8 +811,9 @@ def _reshape(a, shape):
                 q = _try_quot(f.ext, req)
                 if q is not None and not ext_eq(q, 1):
                     a1, a2 = Atom(req, f.name + "h"), Atom(q, f.name + "l")
-                    fl[p:p + 1] = [(ai, (k, 0), a1), (ai, (k, 1), a2)]
-                    _splits.setdefault(id(a), {})[(ai, k)] = (f, a1, a2)
+                    kp = k if isinstance(k, tuple) else (k,)
+                    fl[p:p + 1] = [(ai, kp + (0,), a1), (ai, kp + (1,), a2)]
+                    _splits.setdefault(id(a), {})[(ai, kp)] = (f, a1, a2)
                     continue
             grp.append(fl[p])
             cur = cur * extent(f)
@@ -832,8 +833,9 @@ def _reshape(a, shape):
                 q = _try_quot(f.ext, req)
                 if q is not None and not ext_eq(q, 1):
                     a1, a2 = Atom(q, f.name + "h"), Atom(req, f.name + "l")
-                    fl[p - 1:p] = [(ai, (k, 0), a1), (ai, (k, 1), a2)]
-                    _splits.setdefault(id(a), {})[(ai, k)] = (f, a1, a2)
+                    kp = k if isinstance(k, tuple) else (k,)
+                    fl[p - 1:p] = [(ai, kp + (0,), a1), (ai, kp + (1,), a2)]
+                    _splits.setdefault(id(a), {})[(ai, kp)] = (f, a1, a2)
                     p += 1
                     continue
             grp.insert(0, fl[p - 1])
@@ -887,15 +889,18 @@ def _reshape(a, shape):
         for ai, d in enumerate(src.dims):
             fs = old_factor_lists[ai]
             vals = []
+
+            def val(kp, f):
+                if (ai, kp) in splits:
+                    f0, a1, a2 = splits[(ai, kp)]
+                    hi, lo = val(kp + (0,), a1), val(kp + (1,), a2)
+                    return _iadd(_imul(to_flat(a1, hi), a2.ext), to_flat(a2, lo))
+                if (ai, kp) in got:
+                    return got[(ai, kp)]
+                return zero_idx(f)
+
             for k, f in enumerate(fs):
-                if (ai, k) in splits:
-                    f0, a1, a2 = splits[(ai, k)]
-                    hi, lo = got[(ai, (k, 0))], got[(ai, (k, 1))]
-                    vals.append(_iadd(_imul(to_flat(a1, hi), a2.ext), to_flat(a2, lo)))
-                elif (ai, k) in got:
-                    vals.append(got[(ai, k)])
-                else:
-                    vals.append(zero_idx(f))
+                vals.append(val((k,), f))
             full.append(tuple(vals) if isinstance(d, Prod) else vals[0])
         return src.elem(full)
 
